@@ -270,7 +270,8 @@ def r6(run, db):
             run.check(good, nm + "|request-once-then-wait", "%s issues %s once and then waits" % (nm, req), "%s: %d requests, %d waits" % (nm, len(rq), len(wt)), f.where())
             if wt:
                 aw = await_of_call(f, wt[0])
-                oks = [site for site, s_ in f.aggregates(adt="std::result::Result", variant="Ok")]
+                # the Ok values that become this function's result (an intermediate Ok -- the request's own result -- is not one)
+                oks = ok_return_sites(f) or [site for site, s_ in f.aggregates(adt="std::result::Result", variant="Ok")]
                 okd = bool(aw) and bool(oks) and all(aw[0].completes_before(s_) for s_ in oks)
                 run.check(okd, nm + "|ok-only-after-wait", "%s returns Ok only after wait() completed (an Ok always means the actor has fully stopped)" % nm,
                           "%s can return Ok(()) without having waited (e.g. when the one-shot port was already consumed): a repeated/late call reports success while the actor is still running post_stop" % nm, f.where())
